@@ -62,6 +62,7 @@ func main() {
 			}
 			obs, verdict := runGuarded(d, toks[1:])
 			fmt.Fprintf(out, "%s\t%s\n", obs, verdict)
+			out.Flush() // a later case may kill the process (fatal runtime error, race detector)
 		}
 	case "oracle":
 		oracleServer()
